@@ -3,6 +3,8 @@
 package gi
 
 import (
+	"fmt"
+
 	"github.com/ohler55/slip"
 )
 
@@ -39,8 +41,8 @@ type MakeChannel struct {
 func (f *MakeChannel) Call(s *slip.Scope, args slip.List, depth int) slip.Object {
 	slip.CheckArgCount(s, depth, f, args, 1, 1)
 	size, ok := args[0].(slip.Fixnum)
-	if !ok || int(size) < 0 {
-		slip.TypePanic(s, depth, "size", args[0], "non-negative fixnum")
+	if !ok || size < 0 || slip.ArrayMaxDimension < size {
+		slip.TypePanic(s, depth, "size", args[0], fmt.Sprintf("non-negative fixnum not more than %d", slip.ArrayMaxDimension))
 	}
 	return Channel(make(chan slip.Object, int(size)))
 }
